@@ -1,11 +1,12 @@
-(* Property C12 (the export does not depend on the capture container) -- statements only: the pcapng reader.
-   The legacy pcap reader (-l) is dpkt's, not TLExport's: it is exercised by the check, not modelled.  Time stamps: the reader turns
-   (ticks, if_tsresol, if_tsoffset) into a float and the writer turns the float into microseconds; that float arithmetic is not
-   modelled in Coq (DESIGN.md, C12): the theorems below say that the reader recovers exactly the ticks, the resolution and the
-   frames that were written, whatever the byte order and whatever else is in the file; the check compares the exports of the same
-   packets under resolutions 10^-k and 2^-k and offsets. *)
+(* Property C12 (the export does not depend on the capture container) -- statements only.
+   The pcapng reader (TLExport's dpkt_dsb.Reader): the theorems say that it recovers exactly the ticks, the resolution and the frames
+   that were written, whatever the byte order and whatever else is in the file.  The legacy pcap reader (-l; dpkt's, as main.run uses
+   it): C12_legacy_read_back / C12_legacy_byte_order -- seconds, sub-second part and data of every packet, whatever the byte order,
+   the time unit and the other header fields.  Time stamps: (ticks, if_tsresol, if_tsoffset) -> binary64 -> microseconds, and
+   (tv_sec, tv_usec | tv_nsec) -> binary64 / Decimal -> microseconds: C12_time_* (Model/TimeConv.v, Flocq).  The check compares
+   the exports of the same packets in every container. *)
 From Coq Require Import ZArith List Bool.
-Require Import TimeConv TimeP PyLib PcapngReader PcapngSpec C12P.
+Require Import TimeConv TimeP PyLib PcapngReader PcapngSpec C12P PcapLegacy PcapLegacySpec PcapLegacyP.
 Import ListNotations.
 Open Scope Z_scope.
 
@@ -28,6 +29,7 @@ Print Assumptions C12_byte_order.
 Theorem C12_default_resolution : forall le lt sn, 0 <= lt < 256 ^ 2 -> 0 <= sn < 256 ^ 4 ->
   idb_tsinfo le (block le 1 (enc le lt 2 ++ enc le 0 2 ++ enc le sn 4 ++ [])) = Ok {| ts_base := 10; ts_exp := 6; ts_offset := 0 |}.
 Proof. exact tsinfo_default. Qed.
+Print Assumptions C12_default_resolution.
 Theorem C12_resolution : forall le lt sn v, 0 <= lt < 256 ^ 2 -> 0 <= sn < 256 ^ 4 -> 0 <= v < 256 ->
   idb_tsinfo le (block le 1 (enc le lt 2 ++ enc le 0 2 ++ enc le sn 4 ++ ser_ifopts le {| io_resol := Some v; io_offset := None |})) =
   Ok {| ts_base := if v <? 128 then 10 else 2; ts_exp := if v <? 128 then v else v - 128; ts_offset := 0 |}.
@@ -75,3 +77,18 @@ Example C12_example :
   parse_file (ser false c) = Ok ({| ts_base := 10; ts_exp := 9; ts_offset := 0 |}, [RDsb [65; 66; 67]; RPkt 1700000000123456789 [1; 2; 3; 4; 5]; RPkt 5 [9]]) /\
   parse_file (ser true c) = parse_file (ser false c).
 Proof. vm_compute. split; reflexivity. Qed.
+
+(* legacy pcap (-l): a file in the libpcap format of Spec/PcapLegacySpec.v -- either byte order, micro- or nanosecond magic, any time
+   zone / accuracy / snap length / link type in the header, any original lengths -- is read back as exactly its packets: seconds,
+   sub-second count and data, in order, with the time unit the magic announces *)
+Theorem C12_legacy_read_back : forall le f, lfile_ok f ->
+  read_legacy (ser_legacy le f) = Ok (lf_nano f, map (fun p => (lp_sec p, lp_sub p, lp_data p)) (lf_pkts f)).
+Proof. exact read_ser_legacy. Qed.
+Print Assumptions C12_legacy_read_back.
+
+(* ... hence the same whatever the byte order, the snap length and the link type the header declares *)
+Theorem C12_legacy_byte_order : forall f z s sn lt, lfile_ok f -> 0 <= z < 256 ^ 4 -> 0 <= s < 256 ^ 4 -> 0 <= sn < 256 ^ 4 -> 0 <= lt < 256 ^ 4 ->
+  read_legacy (ser_legacy true f) =
+  read_legacy (ser_legacy false {| lf_nano := lf_nano f; lf_zone := z; lf_sigfigs := s; lf_snaplen := sn; lf_linktype := lt; lf_pkts := lf_pkts f |}).
+Proof. exact legacy_byte_order. Qed.
+Print Assumptions C12_legacy_byte_order.
